@@ -867,9 +867,13 @@ class Lowerer:
         ct = self.ctype(t)
         isref = self._strip_cv(t['qualType']).endswith('&')
         init = None
-        for c in d.get('inner', []):
-            if c.get('kind', '').endswith('Expr') or c.get('kind', '').endswith('Operator') or c.get('kind', '').endswith('Literal'):
+        if d.get('init'):
+            for c in d.get('inner', []):
+                k = c.get('kind', '')
+                if k.endswith('Attr') or k.endswith('Type') or k.endswith('Decl'): continue
                 init = c
+            if init is None:
+                raise Unsupported('variable %s has an initialiser that was not found in the AST' % name)
         if init is None:
             return '%s%s %s;\n' % (ind, ct, name)
         if isref:
@@ -1148,13 +1152,15 @@ class Lowerer:
             ct = self.ctype(g['type'])
             name = 'g_' + sanitize(self.tu.qname[i])
             init = None
-            for c in g.get('inner', []):
-                if c.get('kind', '').endswith('Literal') or c.get('kind') in ('ImplicitCastExpr', 'ConstantExpr', 'UnaryOperator', 'BinaryOperator'):
+            if g.get('init'):
+                for c in g.get('inner', []):
+                    k = c.get('kind', '')
+                    if k.endswith('Attr') or k.endswith('Type') or k.endswith('Decl'): continue
                     init = c
             tls = '_Thread_local ' if g.get('tls') else ''
             self.meta.setdefault('globals', []).append({'cname': name, 'qualified': self.tu.qname[i], 'storage': g.get('storageClass'), 'tls': g.get('tls'), 'type': g['type']['qualType'],
                                                         'line': g.get('loc', {}).get('_line'), 'file': g.get('loc', {}).get('_file')})
-            if init is not None and not ct.startswith('struct'):
+            if init is not None and ct.startswith('t_'):
                 self._tmps = []; self._tmpn = 0; self._locals = {}; self._curname = name
                 cq = 'const ' if re.search(r'\bconst\b', g['type']['qualType']) or g.get('constexpr') else ''
                 gl += '%sstatic %s%s %s = %s;\n' % (tls, cq, ct, name, self.expr(init))
